@@ -190,6 +190,9 @@ class _XmlStructureBaseProperty(ABC):
         :return:
         """
         value = self.get_py_value_from_node(instance, node)
+        if value is not None and value is self._default_py_value:
+            # never hand out the class level default object itself, instances would share (and change) it
+            value = copy.deepcopy(value)
         setattr(instance, self._local_var_name, value)
 
 
@@ -1207,6 +1210,8 @@ class _ElementListProperty(_ElementBase, ABC):
         """
         value: list | None = self.get_py_value_from_node(instance, node)
         if value is not None:
+            if value is self._default_py_value:
+                value = copy.deepcopy(value)  # see _XmlStructureBaseProperty.update_from_node
             setattr(instance, self._local_var_name, value)
 
 
